@@ -540,6 +540,22 @@ def run_case(case, mon):
                                   col, clause, who, ('"%s".' % got if got else "bare"), ('"%s".' % want if want else "bare"), sql[:300]),
                               {"case": case, "sql": sql})
                 return
+    if case["kind"] == "update" and case["second"] == "update-from":
+        # on_field(): the column of the first FROM item against the joined item's - also in an UPDATE that has a FROM item
+        T_ = r["Table"]
+        ua, ub, uc = T_("ua"), T_("ub", alias="ubx" if case["order"] else None), T_("uc")
+        try:
+            q2 = r[d].update(ua).set(ua.x, 1).from_(ub).join(uc).on_field("jf", "jg")
+            toks2 = tokenize(q2.get_sql(contexts()[d]), d)
+            quals = [(t_.value, qualifier_of(toks2, i_)) for i_, t_ in enumerate(toks2) if t_.kind == "IDENT" and t_.value in ("jf", "jg")]
+            mon.count("references_checked", len(quals))
+            first = "ubx" if case["order"] else "ub"
+            if quals != [("jf", first), ("jf", "uc"), ("jg", first), ("jg", "uc")]:
+                mon.violation("wrong-qualifier:on-field:update-from:%s" % fam, "on_field() in UPDATE .. FROM .. JOIN compares %s, expected the first FROM item %r against the joined item: %r" % (
+                    quals, first, q2.get_sql(contexts()[d])[:260]))
+                return
+        except Exception as e:
+            mon.count("on_field_update_from_raises")
     if multi or any(always.values()):
         mon.nontrivial(case)
     # same column name on both sides: through Field.get_sql render events
